@@ -2,6 +2,10 @@ import Casket.Proofs.AutoHTTPS
 import Casket.Proofs.AutoHTTPSRedirect
 import Casket.Proofs.AutoHTTPSSites
 import Casket.Proofs.AutoHTTPSAddr
+import Casket.Proofs.AutoHTTPSInspect
+import Casket.Proofs.AutoHTTPSAddrIP
+import Casket.Proofs.AutoHTTPSSame
+import Casket.Proofs.AutoHTTPSAddr6
 /-
 C15 — Automatic HTTPS is applied exactly to qualifying sites, with redirects.
 
@@ -173,43 +177,35 @@ theorem C15_redirect_target_port (c : Site) (hman : c.hasManager = true) (hw : w
 example : wantsRedirect { host := b!"example.com", enabled := true, manual := true } = true ∧
     (redirPlaintextHost { host := b!"example.com", enabled := true, manual := true }).redir = some b!"2015" := by decide
 
-/-- COMPLETENESS, partial: an HTTPS site that wants a redirect and whose host has no declared site on the HTTP port is
-covered by a synthesised site of its host — unless it is not on port 443 itself while another site of its host is, and that
-site makes no redirect (TLS off / no_redirect / plain HTTP).  Excluded: exactly finding C15-redirect-deferred-to-443-sibling. -/
-theorem C15_redirect_complete_partial (e : List Site) (k : Nat) (c : Site) (hk : e[k]? = some c)
-    (hw : wantsRedirect c = true) (hnp : NoPlain e c.host) :
-    Covered (redirsGo e e 0 []) c.host ∨ Blocked e k c := by
+/-- COMPLETENESS: every HTTPS site that wants a redirect (TLS on, no_redirect off, not declared as plain HTTP) and whose host
+has no declared site on the HTTP port is covered by a synthesised site of its host.  (Total since the repair
+"fix: a site on the HTTPS port suppresses its siblings' redirect only if it makes one itself".) -/
+theorem C15_redirect_complete (e : List Site) (k : Nat) (c : Site) (hk : e[k]? = some c)
+    (hw : wantsRedirect c = true) (hnp : NoPlain e c.host) : Covered (redirsGo e e 0 []) c.host := by
   have hlt : k < e.length := by
     rcases Nat.lt_or_ge k e.length with h | h
     · exact h
     · rw [List.getElem?_eq_none h] at hk; cases hk
-  rcases (inv_final e).complete k c hlt hk hw hnp with h | h | ⟨j, cj, hj, hcj, _⟩
-  · exact Or.inl h
-  · exact Or.inr h
+  rcases (inv_final e).complete k c hlt hk hw hnp with h | ⟨j, cj, hj, hcj, _⟩
+  · exact h
   · rw [List.getElem?_eq_none hj] at hcj; cases hcj
 
-/-- the two sites of the witness: `a:443` with no_redirect, `a:5001` -/
+/-- the two sites of the former finding C15-redirect-deferred-to-443-sibling: `a:443` with no_redirect, `a:5001` -/
 def witnessSites : List Site :=
   [{ host := b!"a", port := b!"443", scheme := b!"https", enabled := true, noRedirect := true },
    { host := b!"a", port := b!"5001", enabled := true }]
 
-/-- …and the code (as modelled, confirmed on the real code by stream c15.sites) does leave such a site without redirect:
-`a:443 { tls { no_redirect } }` + `a:5001`. -/
-theorem C15_redirect_complete_fails_witness :
-    ∃ c, witnessSites[1]? = some c ∧ wantsRedirect c = true ∧ NoPlain witnessSites c.host ∧
-      makePlaintextRedirects witnessSites = witnessSites := by
-  refine ⟨_, rfl, by decide, ?_, by decide⟩
-  intro c hc
-  simp only [witnessSites, List.mem_cons, List.not_mem_nil, or_false] at hc
-  rcases hc with rfl | rfl <;> decide
+/-- …for which the repaired code synthesises the redirect to port 5001 (regression example of the former gap). -/
+theorem C15_redirect_443_sibling_regression :
+    makePlaintextRedirects witnessSites = witnessSites ++ [redirPlaintextHost { host := b!"a", port := b!"5001", enabled := true }] ∧
+    (redirPlaintextHost { host := b!"a", port := b!"5001", enabled := true }).redir = some b!"5001" := by decide
 
-/-- THE SITE-SET VERDICT (stream c15.sites), partial: applied to what the model pipeline shows, the judged predicate
+/-- THE SITE-SET VERDICT (stream c15.sites): applied to what the model pipeline shows, the judged predicate
 `sitesVerdict` — managed ⇔ qualifies, managed ⇒ TLS, plain HTTP ⇒ no TLS, every synthesised site a plain port-80 site for a host
 without plaintext site whose redirect goes to an HTTPS site of that host on the right port, one per host, every HTTPS site
-covered — answers "ok", or the one verdict class of finding C15-redirect-deferred-to-443-sibling.  For all lists of fresh sites. -/
-theorem C15_sites_model_verdict_partial (ds : List Site) (hf : ∀ d ∈ ds, Fresh d) :
-    let v := sitesVerdict (ds.map observeSite) ((redirsGo (ds.map stageE) (ds.map stageE) 0 []).map observeRedirect)
-    v = "ok" ∨ v = "bad:redirect-missing-443-sibling:an HTTPS site has no redirect site because a site of the same host on port 443 (which produces no redirect itself) is preferred" :=
+covered — answers "ok".  For all lists of fresh sites. -/
+theorem C15_sites_model_verdict_ok (ds : List Site) (hf : ∀ d ∈ ds, Fresh d) :
+    sitesVerdict (ds.map observeSite) ((redirsGo (ds.map stageE) (ds.map stageE) 0 []).map observeRedirect) = "ok" :=
   sites_verdict ds hf
 
 /-- Sites built the way the harness and the Casketfile front end build them are fresh. -/
@@ -308,5 +304,143 @@ example : expectedKey { host := b!"Example.COM", port := some b!"80" } = b!"http
     expectedKey { scheme := b!"HTTPS", host := b!"example.com", port := some b!"8443" } = b!"https://example.com:8443" ∧
     expectedKey { host := b!"example.com", port := some b!"2015" } = b!"example.com:2015" ∧
     parseIP b!"Example.COM" = none ∧ parseIP b!"example.com" = none := by decide
+
+/-! ### the duplicate bookkeeping of InspectServerBlocks ("duplicate site key" / "duplicate site address")
+
+`inspect` is the model of the address loop of InspectServerBlocks (stream c15.inspect ties it to the real loader);
+`normalizedAddr` = standardizeAddress + Normalize, `Address.key` = Address.Key(), `Address.siteString` = Address.String() of the
+address with the default port filled in.  These statements are meant to be cited by C01. -/
+
+/-- ACCEPTED ⇔ every address standardises and no two of them have the same normalised key or the same site string; the configs
+created are the normalised addresses, in order. -/
+theorem C15_inspect_accepts_iff (ks : List Bytes) (as : List Address) :
+    inspect ks = .ok as ↔
+      ks.map normalizedAddr = as.map some ∧ (as.map Address.key).Nodup ∧ (as.map Address.siteString).Nodup :=
+  inspect_ok_iff ks as
+
+/-- What C01 needs: after InspectServerBlocks has accepted a Casketfile, the site keys are pairwise different, and so are the
+site addresses (scheme://host[:port]/path with defaults filled in); one config per address, in order. -/
+theorem C15_accepted_sites_distinct (ks : List Bytes) (as : List Address) (h : inspect ks = .ok as) :
+    as.length = ks.length ∧ (as.map Address.key).Nodup ∧ (as.map Address.siteString).Nodup := by
+  obtain ⟨hm, hk, hs⟩ := (inspect_ok_iff ks as).mp h
+  refine ⟨?_, hk, hs⟩
+  have := congrArg List.length hm
+  simpa using this.symm
+
+/-- REJECTED AS DUPLICATES ⇔ two normalised keys or two site strings are equal (for addresses that all standardise), and the
+error says which: `duplicate site key` only if two keys coincide, `duplicate site address` only if two site strings do. -/
+theorem C15_inspect_duplicates_iff (ks : List Bytes) (hall : ∀ k ∈ ks, (normalizedAddr k).isSome = true) :
+    ((∃ as, inspect ks = .ok as) ↔
+      ((normalizedAddrs ks).map Address.key).Nodup ∧ ((normalizedAddrs ks).map Address.siteString).Nodup) ∧
+    (∀ e, inspect ks = .error e →
+      (e = .dupKey ∧ ¬ ((normalizedAddrs ks).map Address.key).Nodup) ∨
+      (e = .dupAddr ∧ ¬ ((normalizedAddrs ks).map Address.siteString).Nodup)) :=
+  inspect_duplicates_iff ks hall
+
+example : (normalizedAddr b!"example.com").isSome = true ∧ (normalizedAddr b!"EXAMPLE.com:2015").isSome = true ∧
+    (normalizedAddrs [b!"example.com", b!"EXAMPLE.com:2015"]).map Address.key = [b!"example.com", b!"example.com:2015"] ∧
+    (normalizedAddrs [b!"example.com", b!"EXAMPLE.com:2015"]).map Address.siteString = [b!"http://example.com:2015", b!"http://example.com:2015"] := by decide
+
+/-- A defect of Address.Key outside C15's property, recorded because C01 builds on the keys: for a bracketed IPv6 literal the
+explicit port is not part of the key (the offset arithmetic of Key assumes the host text of the original), so two sites
+that differ only in port are rejected as `duplicate site key` (confirmed on the real loader: stream c15.inspect, `[::1]:81,[::1]:82`). -/
+theorem C15_key_ipv6_drops_port_witness :
+    (normalizedAddrs [b!"[::1]:81", b!"[::1]:82"]).map Address.key = [b!"::1", b!"::1"] ∧
+    (normalizedAddrs [b!"[::1]:81", b!"[::1]:82"]).map (·.port) = [b!"81", b!"82"] ∧
+    (match inspect [b!"[::1]:81", b!"[::1]:82"] with | .error .dupKey => true | _ => false) = true := by decide
+
+/-! ### IP-literal hosts, Address.String, and "duplicate ⇔ same site" -/
+
+/-- An IPv4 literal is its own canonical text: whatever net.ParseIP accepts in dotted form is what IP.String prints (Go refuses
+leading zeros), so Normalize leaves every host written with name bytes — names and IPv4 literals alike — unchanged up to case. -/
+theorem C15_ipv4_literal_canonical (h : Bytes) (hn : h.all nameByte = true) : canonHost h = h := canonHost_name h hn
+
+example : canonHost b!"10.0.0.1" = b!"10.0.0.1" ∧ (parseIP b!"10.0.0.1").isSome = true ∧ parseIP b!"010.0.0.1" = none ∧
+    canonHost b!"[::1]" = b!"[::1]" ∧ canonHost b!"0:0::1" = b!"::1" := by decide
+
+/-- `C15_spec_reader_agrees`, `C15_vhost_without_scheme`, `C15_key_formula` and `C15_key_roundtrip` without the "not an IP literal"
+hypothesis: they hold for EVERY well-formed `[scheme://]host[:port]`, IPv4-literal hosts included. -/
+theorem C15_address_theorems_all_hosts (a : AddrParts) (hok : a.ok) (r : Address) (h : standardizeAddress (composeAddr a) = .ok r) :
+    (r.normalize.scheme, r.normalize.host, r.normalize.port) = readAddr (composeAddr a) ∧
+    r.normalize.vhost = a.host ++ portPart a ∧
+    r.normalize.key = expectedKey a ∧
+    (∃ r', standardizeAddress r.normalize.key = .ok r' ∧ r'.normalize.scheme = r.normalize.scheme ∧
+      r'.normalize.host = r.normalize.host ∧ r'.normalize.port = r.normalize.port ∧ r'.normalize.key = r.normalize.key) :=
+  ⟨reader_agrees_all a hok r h, vhost_compose_all a hok r h, key_compose_all a hok r h, key_roundtrip_all a hok r h⟩
+
+example : AddrParts.ok { scheme := b!"https", host := b!"10.0.0.1", port := some b!"8443" } := by
+  refine ⟨by decide, by decide, ?_⟩
+  intro p hp; cases hp; exact ⟨by decide, by decide⟩
+
+/-- Address.String of the normalised address with the default port filled in — the text InspectServerBlocks books a site under —
+is the address text of the EFFECTIVE site: scheme http unless https is written or implied by port 443, lower-cased host,
+port (2015 if none) written unless it is the scheme's default. -/
+theorem C15_site_string_formula (a : AddrParts) (hok : a.ok) (hstd : a.stdScheme) (r : Address)
+    (h : standardizeAddress (composeAddr a) = .ok r) : r.normalize.siteString = composeAddr (effectiveParts a) :=
+  siteString_compose a hok hstd r h
+
+/-- ROUND TRIP through Address.String: standardizeAddress applied to the site string gives the effective site back, and the site
+string of that is the same text again (so on the image of standardizeAddress with explicit scheme and port it is the identity). -/
+theorem C15_site_string_roundtrip (a : AddrParts) (hok : a.ok) (hstd : a.stdScheme) (r : Address)
+    (h : standardizeAddress (composeAddr a) = .ok r) :
+    standardizeAddress r.normalize.siteString = .ok (effectiveAddr a) ∧
+    (effectiveAddr a).normalize.siteString = r.normalize.siteString :=
+  siteString_roundtrip a hok hstd r h
+
+example : effective { host := b!"Example.COM" } = (b!"http", b!"example.com", b!"2015") ∧
+    effective { host := b!"example.com", port := some b!"443" } = (b!"https", b!"example.com", b!"443") ∧
+    composeAddr (effectiveParts { scheme := b!"HTTP", host := b!"example.com", port := some b!"80" }) = b!"http://example.com" := by decide
+
+/-- DUPLICATE ⇔ SAME SITE: two well-formed addresses (scheme none/http/https, name or IPv4-literal host, optional numeric port)
+clash in InspectServerBlocks — same normalised key or same site string — exactly when they denote the same effective site. -/
+theorem C15_clash_iff_same_site (a b : AddrParts) (hoa : a.ok) (hob : b.ok) (hsa : a.stdScheme) (hsb : b.stdScheme)
+    (ra rb : Address) (ha : standardizeAddress (composeAddr a) = .ok ra) (hb : standardizeAddress (composeAddr b) = .ok rb) :
+    (ra.normalize.key = rb.normalize.key ∨ ra.normalize.siteString = rb.normalize.siteString) ↔ effective a = effective b :=
+  clash_iff_same_site a b hoa hob hsa hsb ra rb ha hb
+
+/-- …hence two such addresses are accepted together by InspectServerBlocks exactly when they denote different sites… -/
+theorem C15_inspect_pair_iff (a b : AddrParts) (hoa : a.ok) (hob : b.ok) (hsa : a.stdScheme) (hsb : b.stdScheme)
+    (ra rb : Address) (ha : standardizeAddress (composeAddr a) = .ok ra) (hb : standardizeAddress (composeAddr b) = .ok rb) :
+    (∃ as, inspect [composeAddr a, composeAddr b] = .ok as) ↔ effective a ≠ effective b :=
+  inspect_pair a b hoa hob hsa hsb ra rb ha hb
+
+/-- …and the effective site is what the judge of stream c15.inspect reads from the text (`denotes`). -/
+theorem C15_denotes_is_effective (a : AddrParts) (hok : a.ok) :
+    denotes (composeAddr a) = ((effective a).1, (effective a).2.1, (effective a).2.2, []) := denotes_compose a hok
+
+/-! ### bracketed IPv6 literals -/
+
+/-- THE SCHEME/PORT TABLE for `[scheme://][v6][:port]`, any IPv6 notation net.ParseIP accepts (compressed or not, upper or lower
+case, embedded IPv4; no zone), with and without port: same table as for names, the host is the literal without brackets. -/
+theorem C15_standardize_table_ipv6 (a : V6Parts) (hok : a.ok) : standardizeAddress (composeAddr6 a) = expectedAddr6 a :=
+  standardize_compose6 a hok
+
+example : V6Parts.ok { scheme := b!"https", v6 := b!"2001:DB8::1", port := some b!"8443" } ∧ V6Parts.ok { v6 := b!"::ffff:10.0.0.1" } := by
+  refine ⟨⟨by decide, by decide, by decide, ?_⟩, ⟨by decide, by decide, by decide, ?_⟩⟩
+  · intro p hp; cases hp; exact ⟨by decide, by decide⟩
+  · intro p hp; cases hp
+
+/-- After Normalize the host is net.IP.String of the literal (lower case): every notation of an address gives the same host;
+VHost keeps the text as written, brackets and port included. -/
+theorem C15_normalized_ipv6 (a : V6Parts) (hok : a.ok) (r : Address) (h : standardizeAddress (composeAddr6 a) = .ok r) :
+    r.normalize.host = toLower (canonHost a.v6) ∧ r.normalize.port = tablePort (toLower a.scheme) a.port ∧
+    r.normalize.scheme = tableScheme (toLower a.scheme) (tablePort (toLower a.scheme) a.port) ∧
+    r.normalize.vhost = hostPort6 a := by
+  have hn := normalized_compose6 a hok r h
+  exact ⟨by rw [hn], by rw [hn], by rw [hn], vhost_compose6 a hok r h⟩
+
+example : toLower (canonHost b!"2001:DB8:0:0::1") = b!"2001:db8::1" ∧ toLower (canonHost b!"::ffff:10.0.0.1") = b!"10.0.0.1" := by decide
+
+/-- Address.Key of a bracketed IPv6 literal written in canonical form, with or without port: scheme prefix and literal — the
+explicit port is NEVER part of the key (Key's offset arithmetic assumes the original host text, which has brackets here).
+Consequence, with `C15_inspect_duplicates_iff`: `[v6]:p` and `[v6]:q` under the same scheme are rejected as "duplicate site
+key" although they are different sites (witness `C15_key_ipv6_drops_port_witness`; real loader: stream c15.inspect).
+A defect for C01/C09 to own; C15's property does not depend on it. -/
+theorem C15_key_ipv6_drops_port (a : V6Parts) (hok : a.ok) (hcan : toLower (canonHost a.v6) = a.v6) (r : Address)
+    (h : standardizeAddress (composeAddr6 a) = .ok r) :
+    r.normalize.key = schemePrefix (tableScheme (toLower a.scheme) (tablePort (toLower a.scheme) a.port)) ++ a.v6 :=
+  key_compose6_drops_port a hok hcan r h
+
+example : toLower (canonHost b!"::1") = b!"::1" ∧ toLower (canonHost b!"2001:db8::1") = b!"2001:db8::1" := by decide
 
 end Casket.Props.C15
